@@ -45,6 +45,7 @@ type FuncContract struct {
 	Assumed  bool // from stdlib.spec
 	MayPanic bool
 	Lemma    bool
+	ReplayHints map[string]string // parameter name (or "recv") -> Go expression used by replay instead of a model value
 	Shallow  bool     // do not inline callees when verifying this function (large functions)
 	Uses     []string // quantified axioms this function's proof may use
 	SpecNames []string // spec-level aliases for the results of a pure function (one per result)
@@ -197,7 +198,7 @@ func (db *SpecDB) loadContractFile(path, pkgPath string) error {
 		isKeyword := map[string]bool{"func": true, "iface": true, "prop": true, "requires": true, "ensures": true, "at": true, "loop": true,
 			"modifies": true, "nomod": true, "pure": true, "fresh": true, "trusted": true, "safety": true, "noinline": true, "nilable": true,
 			"abstract": true, "define": true, "axiom": true, "stable": true, "nonnil": true, "ghost": true, "params": true, "maypanic": true,
-			"guarded": true, "atomic-only": true, "scan": true, "lemma": true, "end": true, "specname": true, "uses": true, "package-default": true, "shallow": true}[word]
+			"guarded": true, "atomic-only": true, "scan": true, "lemma": true, "end": true, "specname": true, "uses": true, "package-default": true, "shallow": true, "replay": true}[word]
 		if !isKeyword {
 			// continuation of the previous clause / define
 			if pendingSrc != nil {
@@ -378,6 +379,17 @@ func (db *SpecDB) loadContractFile(path, pkgPath string) error {
 		case "maypanic":
 			if cur != nil {
 				cur.MayPanic = true
+			}
+		case "replay":
+			// replay NAME GO-EXPRESSION
+			if cur != nil {
+				f := strings.SplitN(rest, " ", 2)
+				if len(f) == 2 {
+					if cur.ReplayHints == nil {
+						cur.ReplayHints = map[string]string{}
+					}
+					cur.ReplayHints[f[0]] = strings.TrimSpace(f[1])
+				}
 			}
 		case "shallow":
 			if cur != nil {
